@@ -49,6 +49,8 @@ def names_variants(p):
     gname = p["names"][g]
     if t == "xnor" and len(ops) >= 2:
         out.append(rename(p, {ops[0]: "xor_inv_" + gname}))
+        for pre in ("~", "!", "not_", "-"):
+            out.append(rename(p, {ops[0]: pre + gname}))
     if len(ops) >= 3:
         for a, b in itertools.permutations(ops, 2):
             others = [o for o in ops if o not in (a, b)]
